@@ -542,6 +542,19 @@ def check_case(ctx: runner.Ctx, case):  # noqa: C901, PLR0912, PLR0915
         except Exception as e:  # noqa: BLE001
             viol("dump_crashed", (type(e).__name__, exc_site(e)), f"value={v!r}: {describe(e)}")
             continue
+        if isinstance(d, list) and kind == "flag_names":
+            # a caller may edit a dumped document in place: the representation of the member must not change with it
+            # (the list of names is built by the dumper; an exact-value dumper hands out the member's own value)
+            keep = list(d)
+            d.append("__edited__")
+            try:
+                again = dumper(v)
+            except Exception as e:  # noqa: BLE001
+                viol("dump_crashed", (type(e).__name__, exc_site(e)), f"value={v!r} (second dump): {describe(e)}")
+                continue
+            if again != keep:
+                viol("dump_changes_after_result_was_edited", (kind,), f"value={v!r} first={keep!r} second={again!r}")
+            d = keep
         dumped.append((v, d))
         # documented outer form
         if kind in ("exact", "flag_exact"):
@@ -640,6 +653,11 @@ def check_case(ctx: runner.Ctx, case):  # noqa: C901, PLR0912, PLR0915
             cands.append(collections.OrderedDict((x, 1) for x in d))
             cands.append(types.MappingProxyType({x: 1 for x in d}))
             cands.append(collections.ChainMap({x: 1 for x in d}))
+            # "the loader takes any iterable": one-shot iterators, generators, views and containers that are no list
+            for how in (_It.HOWS if kind == "flag_names" else ()):
+                cands.append(_It(how, d))
+                cands.append(_It(how, d + d))
+                cands.append(_It(how, d + ["__nope__"]))
         if isinstance(d, int) and not isinstance(d, bool):
             cands.extend([d + 1, -d - 1, float(d), str(d), d + 2 ** 20])
     if kind == "flag_exact":
@@ -657,10 +675,15 @@ def check_case(ctx: runner.Ctx, case):  # noqa: C901, PLR0912, PLR0915
         for n in cls.__members__:
             cands.append(n)
 
-    for cand in cands:
-        verdict, expected = reference(cls, kind, prov, case["strict"], named, cand,
+    for cand_ in cands:
+        lazy = isinstance(cand_, _It)
+        # the reference sees the items of a lazily made iterable as a list; the loader gets a fresh iterable every time
+        verdict, expected = reference(cls, kind, prov, case["strict"], named, list(cand_.items) if lazy else cand_,
                                       mp if kind in ("by_name", "flag_names") else None,
                                       usable if kind in ("by_name", "flag_names") else None, spec)
+        cand = cand_.make() if lazy else cand_
+        if lazy:
+            ctx.count(f"candidates_iterable_{cand_.how}")
         ctx.count(f"candidates_{verdict}")
         if verdict == "unspecified":
             # nothing is claimed about acceptance, but whatever the loader does it must not leak a foreign exception
@@ -681,6 +704,8 @@ def check_case(ctx: runner.Ctx, case):  # noqa: C901, PLR0912, PLR0915
         except Exception as e:  # noqa: BLE001
             viol("non_loaderror", (type(e).__name__, exc_site(e)), f"candidate={cand!r}: {describe(e)}")
             continue
+        if lazy:
+            cand = cand_   # for the report: the pane of a consumed iterator says nothing
         if verdict == "reject":
             viol("accepted_non_representation", (type(cand).__name__, "+".join(sorted(feats)) or "plain"),
                  f"candidate={cand!r} loaded={got!r}")
@@ -781,6 +806,39 @@ def reference(cls, kind, prov, strict, named, cand, mp, usable, spec):  # noqa: 
             return "accept", v
         return "reject", None
     raise ValueError(kind)
+
+
+class _It:
+    """An iterable that is made anew for every use (one-shot iterators can not be stored in a candidate list)."""
+    HOWS = ("iter", "gen", "map", "keys_view", "deque", "nolen")
+
+    def __init__(self, how, items):
+        self.how, self.items = how, list(dict.fromkeys(items) if how == "keys_view" else items)
+
+    def make(self):
+        items = list(self.items)
+        if self.how == "iter":
+            return iter(items)
+        if self.how == "gen":
+            return (x for x in items)
+        if self.how == "map":
+            return map(lambda x: x, items)
+        if self.how == "keys_view":      # sized, iterable, not a Mapping; can not hold duplicates
+            return dict.fromkeys(items).keys()
+        if self.how == "deque":
+            return collections.deque(items)
+        return _NoLen(items)
+
+    def __repr__(self):
+        return f"<{self.how} over {self.items!r}>"
+
+
+class _NoLen:
+    def __init__(self, items):
+        self._items = items
+
+    def __iter__(self):
+        return iter(self._items)
 
 
 def _unhashable(x):
